@@ -7,8 +7,8 @@ TRUSTED = ["zone tables (TZif) are trusted input; that libc's localtime / mktime
            "glibc's choice between the two pre-images of an ambiguous wall-clock time is not modelled: either is accepted"]
 ASSUMPTIONS = ["clock strings are ASCII; wall-clock times that do not exist today (DST gap) are outside the property",
                "the virtual now and the encoded instant lie in [0, 2^32)"]
-RULE = ("zones with whole-hour, half-hour, 45-minute and date-line offsets; dates at, before and after DST transitions, 31 Dec and "
-        "29 Feb; every 15th minute of the day plus every minute of the transition hours (thorough: all 1440 minutes); the malformed "
+RULE = ("zones with whole-hour, half-hour, 45-minute and date-line offsets; dates at, before and after DST transitions, 31 Dec, 1 Jan, "
+        "29 Feb and the days whose ISO-week year differs from the calendar year; every 15th minute of the day plus every minute of the transition hours (thorough: all 1440 minutes); the malformed "
         "strings of the regression list; non-trivial = distinct (zone, date, existing minute) triples")
 REQUIREMENT = ("encode(HH:MM) = LE32 of an instant t whose local time (oracle: zoneinfo) is today's date at HH:MM:00, and "
                "decode(encode(HH:MM)) = HH:MM; a string outside the grammar 1-2 digits ':' 1-2 digits with h < 24, m < 60 raises")
@@ -31,11 +31,25 @@ def preimages(tz, today, minute):
     return cand
 
 
+def edge_days():
+    """calendar edges: days whose ISO-week year differs from the calendar year, 31 Dec / 1 Jan, the end of February"""
+    out = []
+    for y in range(2002, 2038):
+        for (m, d) in [(12, 29), (12, 30), (12, 31), (1, 1), (1, 2), (1, 3), (2, 28), (2, 29), (3, 1)]:
+            try: day = D.date(y, m, d)
+            except ValueError: continue
+            if day.isocalendar()[0] != y or (m, d) in [(12, 31), (1, 1), (2, 29)]: out.append((y, m, d))
+    return out
+
+
 def gen(rnd, zone, tier):
     tz = zoneinfo.ZoneInfo(zone); cases = []
     tr = world.transitions_in(zone, 1_000_000_000, 2_100_000_000)
     nows = [rnd.choice(tr) + k * 86400 + rnd.randrange(86400) - 43200 for k in (-1, 0, 0, 1)] if tr else []
     nows += [int(D.datetime(y, m, d, 12, 0, tzinfo=tz).timestamp()) for (y, m, d) in [(2023, 12, 31), (2024, 2, 29), (2025, 1, 1)]]
+    edges = edge_days()
+    nows += [int(D.datetime(y, m, d, rnd.randrange(24), rnd.randrange(60), tzinfo=tz).timestamp())
+             for (y, m, d) in (rnd.sample(edges, 4) if tier == "quick" else edges)]
     nows += world.interesting_instants(rnd, zone, 3 if tier == "quick" else 14)
     for now in nows:
         minutes = set(range(0, 1440, 15)) if tier == "quick" else set(range(1440))
